@@ -194,7 +194,7 @@ def reentrant_slots(st):
 
     def ex(e, inside):
         if isinstance(e, gen.Scalar):
-            if inside:
+            if True:   # also a scalar subquery used directly as a select item re-enters
                 out.update(m.lower() for m in PLACEHOLDER.findall(gen.Renderer().query(e.q)))
         elif isinstance(e, gen.Func):
             for a in e.args:
